@@ -2,6 +2,7 @@ import FluteModel.Lemmas.ObjRecvProto
 import FluteModel.Lemmas.DrainObj
 import FluteModel.Lemmas.ObjRecvTotal
 import FluteModel.Lemmas.ObjRecvPanicFree
+import FluteModel.Lemmas.DrvOrecvDzOK
 /-
   Object-level part of C04 (untrusted input: no packet sequence can panic or hang the receiver).
   Owner of C04 (props.d, parser + session level): agent recv.
@@ -510,5 +511,10 @@ example : ∃ st', run { codec := ⟨fun _ _ => false, fun _ _ _ => none, fun _ 
   rcases hop with rfl | rfl
   · exact ⟨by decide, by intro o ho; cases ho; decide⟩
   · intro o l h; cases h
+
+/-- the parameters the `orecv` driver EXECUTES (table decompressor `idealDz`, inner fuel `idealFuel` = path's `idealMu` + 1) satisfy
+    `DzOK` literally - so `run_total`, `Feasible`, ... apply to exactly the model instance the correspondence validates -/
+theorem driver_params_meet_DzOK (d : Flute.Drv.Orecv.DState) (toi base : Nat) :
+    Nonempty (DzOK (d.params.forObj toi base)) := ⟨Flute.Drv.Orecv.drv_params_dzOK d toi base⟩
 
 end Flute.Props.C04.Obj
